@@ -132,7 +132,7 @@ def explore(prop, strategy, run_case, n, seed, stats, shrink=True, budget_s=None
                 return None
             if 'fail' in last and sig != last['first_sig']:
                 return None             # keep shrinking the same root cause
-            last['fail'] = (sig, detail, case)
+            last['fail'] = (sig, detail, getattr(res, 'canonical_case', None) or case)
             last.setdefault('first_sig', sig)
             last.setdefault('t', time.time())
             failing[digest(case)] = last['fail']
